@@ -41,6 +41,7 @@ def gen_cases(tier, seed):
     cases.append({"kind": "corpus", "which": "mgs_124_7", "rs": "corpus", "full": True})
     cases.append({"kind": "corpus", "which": "mpc_cons", "rs": "corpus", "full": True})
     cases.append({"kind": "restricted", "rs": "restricted"})
+    cases.append({"kind": "lastrun", "rs": f"lastrun:{seed}"})
     for cls in MIN_CLASSES + K_CLASSES:
         for i in range(n):
             cases.append({"kind": "model", "cls": cls, "rs": f"C13:{seed}:{cls}:{i}", "variant": i % 3})
@@ -215,9 +216,45 @@ def run_restricted(case):
     return {"viol": viol, "obs": dict(obs), "nontrivial": True, "keys": ["restricted"], "sample": {"restricted": True}}
 
 
+def run_lastrun(case):
+    """Two-phase MinErrorFlow (few_flow_values_epsilon): is_solved() is set by the optimality of the LAST solver run (second phase), so the
+    data handed out must be that run's solution, not a cached solution of an earlier run."""
+    viol = []; obs = collections.Counter()
+    import networkx as nx
+    rng = gen.rng_for(case["rs"])
+    insts = [([("s", "a", 10), ("a", "t", 12), ("s", "b", 20), ("b", "t", 21)], 10), ([("s", "a", 10), ("a", "t", 10), ("s", "b", 11), ("b", "t", 11), ("s", "c", 20), ("c", "t", 24)], 1)]
+    for _ in range(6):
+        n_ = rng.randint(2, 4); E = []
+        for i in range(n_):
+            a_ = rng.randint(5, 25); E += [("s", f"m{i}", a_), (f"m{i}", "t", a_ + rng.choice([0, 1, 2, 4]))]
+        insts.append((E, rng.choice([0.5, 1, 3, 10])))
+    for E, eps in insts:
+        G = nx.DiGraph()
+        for u, v, f in E:
+            G.add_edge(u, v, flow=f)
+        r = M.safe_call(fp.MinErrorFlow, G, flow_attr="flow", weight_type=int, few_flow_values_epsilon=eps, solver_options=dict(SO))
+        if r[0] != "ok":
+            continue
+        m = r[1]; s_ = M.safe_call(m.solve)
+        if s_[0] != "ok" or not m.is_solved():
+            continue
+        sol = m.get_solution()
+        last = M.safe_call(m.solver.get_values, m.edge_vars)
+        obs["c13.last_run_compared"] += 1
+        if last[0] == "ok":
+            got = {(u, v): d["flow"] for u, v, d in sol["graph"].edges(data=True)}
+            cur = {e: round(x) for e, x in last[1].items() if e in got}
+            if any(abs(got[e] - cur[e]) > 1e-6 for e in cur):
+                viol.append({"sig": "C13/solution-handed-out-is-not-the-one-of-the-last-proven-run/MinErrorFlow/eps",
+                             "msg": f"edges {E} eps={eps}: get_solution() graph {sorted(got.items())} but the solver run whose optimality set is_solved() holds {sorted(cur.items())}"})
+    return {"viol": viol[:2], "obs": dict(obs), "nontrivial": True, "keys": ["lastrun"], "sample": {"lastrun": True}}
+
+
 def run_case(case):
     if case["kind"] == "restricted":
         return run_restricted(case)
+    if case["kind"] == "lastrun":
+        return run_lastrun(case)
     viol = []; obs = collections.Counter(); keys = []
     rng = gen.rng_for(case["rs"])
     M.TRACE.install()
